@@ -63,10 +63,11 @@ class ProgramProperty:
         # steps marked `_tail` (gen.live_tail: the converters live on and are mutated after the operations under
         # test) are judged by the correspondence with the pure model and by the Lean spec checker; the property's own
         # laws speak about the program up to there
-        cut = next((i for i, st in enumerate(case["steps"]) if st.get("_tail")), None)
-        if cut is None:
+        # (phase-2 steps, appended after the tail, are kept: they query converters the tail does not touch)
+        if not any(st.get("_tail") for st in case["steps"]):
             return self.laws(case, impl)
-        return self.laws(dict(case, steps=case["steps"][:cut]), impl[:cut])
+        keep = [i for i, st in enumerate(case["steps"]) if not st.get("_tail")]
+        return self.laws(dict(case, steps=[case["steps"][i] for i in keep]), [impl[i] for i in keep])
 
     def laws(self, case, impl) -> list[str]:
         """The property's own laws evaluated directly on the implementation's outputs."""
